@@ -420,7 +420,7 @@ func (r *Run) injectPendingDefers(st *State, fr *Frame, li *LoopInfo) {
 		other.assume(Not(cond))
 		r.work = append(r.work, other)
 		st.assume(cond)
-		fr.Defers = append(fr.Defers, Deferred{Fn: st.Cells[cell], Injected: cl.Words[2], Call: &ssa.CallCommon{}})
+		fr.Defers = append(fr.Defers, Deferred{Fn: st.Cells[cell], Injected: cl.Words[2], InjT: cell.Typ, Call: &ssa.CallCommon{}})
 	}
 }
 
@@ -607,6 +607,16 @@ func (r *Run) havocLoop(st *State, fr *Frame, li *LoopInfo) {
 	var cks []string
 	for k := range st.Counters {
 		cks = append(cks, k)
+	}
+	// a counter the loop may bump but that does not exist yet (nothing was called before the loop) starts at 0
+	for rn := range regions {
+		if strings.HasPrefix(rn, "counter:") {
+			k := strings.TrimPrefix(rn, "counter:")
+			if _, ok := st.Counters[k]; !ok {
+				st.Counters[k] = IntLit(0)
+				cks = append(cks, k)
+			}
+		}
 	}
 	sort.Strings(cks)
 	for _, k := range cks {
